@@ -531,6 +531,17 @@ func c05(r *ev.Run, replay string) {
 	n1, ok1 := selC.vary(r.Seed, r.Expired, func(t *wire.N, what string) { c05Msg(r, t, ", varied "+what) })
 	n2, ok2 := selS.vary(r.Seed, r.Expired, func(t *wire.N, what string) { c05Msg(r, t, ", varied "+what) })
 	nvar += n1 + n2
+	{
+		p1, okp1 := selC.varyPairs(r.Expired, func(t *wire.N, what string) { c05Msg(r, t, ", varied "+what) })
+		p2, okp2 := selS.varyPairs(r.Expired, func(t *wire.N, what string) { c05Msg(r, t, ", varied "+what) })
+		nvar += p1 + p2
+		r.Set("same_element_pair_variations", p1+p2)
+		if okp1 && okp2 {
+			r.Completed("V1b every pair of scalar fields of one element set to {0, 1, largest, largest-2} x {0, 1, largest, largest-2}")
+		} else {
+			r.Incomplete("V1b same-element field pairs")
+		}
+	}
 	if ok1 && ok2 && !r.Expired() {
 		r.Completed(fmt.Sprintf("V1 every scalar / fixed-width field (match-field values and masks included) varied alone over its value alphabet: all fields of %d hand-picked base messages, and each (root kind, element kind, field) of both corpora in the first of %d messages that shows it", len(hand), len(selC.bases)+len(selS.bases)))
 	} else {
